@@ -96,16 +96,16 @@
   is attached
   [WP-C] … and no testament, nobody ending, nothing deferred,    C05_returns_to_empty'
   nothing waiting in a transport, only the meta session's
-  handler possibly retrying, no pending task (client-level
-  histories `ReachableC`)
+  handler possibly retrying, no pending task (EVERY history     C05_returns_to_empty'_full (def),
+  of inputs: `Realm.Reachable`)                                  C05_returns_to_empty'_full_holds
   calls / invocations / invocationByCall have equal sizes,       C05_bounded
   every entry belongs to attached sessions (so the tables are
   bounded by the pending calls of attached sessions)
 
-  HYPOTHESES ON SESSION KEYS.  None of the theorems below — except the [WP-C] §4 ones, which are about
-  histories of client-level inputs (`WpC.ReachableC`: a joining key is fresh and is not the meta key, only
-  attached clients are dropped; the model's `Op` type also admits `.drop k` for a key that names no client,
-  which leaves k in `ending` for ever: an artefact of the input type, see `C04_meta_never_ends_full_fails`) —
+  HYPOTHESES ON SESSION KEYS.  None of the theorems below — the [WP-C] §4 ones included, which are now
+  stated over EVERY history of inputs (`Realm.Reachable`): `join` under a key in use or the meta key and
+  `drop` of a key that names no attached client are no-ops of the model, so every reachable realm satisfies
+  `WpC.CtlInv` (`Realm.Reachable.ctl`, `Realm.Reachable.clients_wf`) —
   needs "joins use fresh keys" or
   "no session joins with key 0 (= metaKey)": `isClient` / `att` are stated by key, `Realm.leave k`
   removes every client entry with key k, and a client that (in the model only — the harness never
@@ -1080,8 +1080,8 @@ theorem C05_bounded (r : Realm) (hi : RealmInv r) :
 
 open Nexus.L2.WpC in
 /-- FROM THE INPUT TO THE EFFECT ("for any reason … from then on").  The theorems above are about the function
-    `Realm.leave`; this one connects an INPUT to it.  In a state reachable by client-level inputs
-    (`ReachableC`: joining keys are fresh and not the meta key, only attached clients are dropped) whose
+    `Realm.leave`; this one connects an INPUT to it.  In a state reachable by ANY history of inputs
+    (`Realm.Reachable`) whose
     panic flag is `none` (so nothing is pending: `Reachable.quiescent`), let `k` be an attached session that
     is not already ending and whose handler is not in the yield retry loop, and let the input be one that
     ends it (`EndsInput`): its transport is lost (`.drop k`), or it sends GOODBYE, or a protocol violation —
@@ -1096,17 +1096,17 @@ open Nexus.L2.WpC in
     Exceptions, all explicit hypotheses: a BUSY handler (in the retry loop) notices its end only when the
     loop ends (≤ 65.5 s, `C07_retry_*`; the departure is deferred: `runTask_leave`), and a session that is
     already ending ignores further input. -/
-theorem C05_end_input_gone (cfg : Config) (r : Realm) (h : ReachableC cfg r) (hp0 : r.panic = none) (k : SessKey)
+theorem C05_end_input_gone (cfg : Config) (r : Realm) (h : Realm.Reachable cfg r) (hp0 : r.panic = none) (k : SessKey)
     (hk : r.isClient k) (hb : r.busy k = false) (he : k ∉ r.ending) (op : Op) (hop : EndsInput r k op)
     (hp : (r.step op).2.panic = none) :
     ¬ (r.step op).2.isClient k ∧ Gone (r.step op).2 k ∧ (∀ t ∈ (r.step op).2.testaments, t.1 ≠ k) ∧
     k ∉ (r.step op).2.ending ∧ (∀ d ∈ (r.step op).2.deferred, d.1 ≠ k) ∧ (∀ e ∈ (r.step op).2.inbox, e.1 ≠ k) ∧
     (∀ x ∈ (r.step op).2.retries, x.callee ≠ k) ∧ (r.step op).2.tasks = [] := by
-  have _ht : r.tasks = [] := Reachable.quiescent h.reachable hp0
-  obtain ⟨g1, g2, g3, g4, g5, g6, g7, _, _⟩ := step_gone h.reachable.inv.1 h.ctl hk hb he hop hp
+  have _ht : r.tasks = [] := Reachable.quiescent h hp0
+  obtain ⟨g1, g2, g3, g4, g5, g6, g7, _, _⟩ := step_gone h.inv.1 h.ctl hk hb he hop hp
   refine ⟨g1, g2, ?_, g3, g4, g5, g6, g7⟩
   intro t ht e
-  exact g1 (e ▸ (Realm.Reachable.step op h.reachable).testaments t ht)
+  exact g1 (e ▸ (Realm.Reachable.step op h).testaments t ht)
 
 open Nexus.L2.WpC in
 /-- the state-level form (no history): from any state satisfying the two invariants -/
@@ -1151,30 +1151,30 @@ theorem C05_testaments_live (cfg : Config) (r : Realm) (h : Realm.Reachable cfg 
 open Nexus.L2.WpC in
 /-- "ONCE ALL SESSIONS OF A REALM HAVE LEFT … THE ROUTER HOLDS NO PER-SESSION STATE", completed.
     `C05_returns_to_empty` covers the broker and dealer tables; this adds the realm's own per-session state.
-    In a state reachable by client-level inputs (`ReachableC`) in which no session is attached: the
+    In EVERY reachable state (`Realm.Reachable`, any history of inputs) in which no session is attached: the
     testament table is empty, nobody is marked as ending, no departure is deferred, no input waits in a
     transport, only the meta session's handler can be in the retry loop (F19, for ≤ 65.5 s, then it is gone
     too), and — unless a fuel marker was set — no task is pending.  (`queues`, `closedPeers`, `ghosts` hold
     what departed sessions have not yet read; they are the subject of C07/C11. The dealer's `timers` list
     keeps cancelled timers until they fire: a model artefact, in Go the goroutine ends.) -/
-theorem C05_returns_to_empty' (cfg : Config) (r : Realm) (h : ReachableC cfg r) (hc : r.clients = []) :
+theorem C05_returns_to_empty' (cfg : Config) (r : Realm) (h : Realm.Reachable cfg r) (hc : r.clients = []) :
     r.testaments = [] ∧ r.ending = [] ∧ r.deferred = [] ∧ r.inbox = [] ∧
     (∀ x ∈ r.retries, x.callee = metaKey ∧ pptScheme x.opts = "") ∧
     (r.panic = none → r.tasks = []) ∧
     ((∀ s ∈ r.broker.subs, s.members = [] ∧ r.broker.hasHist s.id = true) ∧ r.broker.index = [] ∧
      (∀ g ∈ r.ds.d.regs, g.callees = [metaKey]) ∧ (∀ e ∈ r.ds.d.index, e.1 = metaKey) ∧
      r.ds.d.calls = [] ∧ r.ds.d.invs = [] ∧ r.ds.d.byCall = [] ∧ (∀ x ∈ r.retries, x.callee = metaKey)) := by
-  have hi := h.reachable.inv.1
+  have hi := h.inv.1
   have hct := h.ctl
   have nocl : ∀ k, ¬ r.isClient k := by
     rintro k ⟨c, hcm, _⟩
     rw [hc] at hcm; cases hcm
   have hretr : ∀ x ∈ r.retries, x.callee = metaKey := fun x hx => (hi.retr x hx).elim id (fun h => absurd h (nocl _))
   refine ⟨?_, ?_, ?_, ?_, fun x hx => ⟨hretr x hx, hct.safe.retries x hx (hretr x hx)⟩,
-    fun hp => Reachable.quiescent h.reachable hp, C05_returns_to_empty r hi hc⟩
+    fun hp => Reachable.quiescent h hp, C05_returns_to_empty r hi hc⟩
   · cases ht : r.testaments with
     | nil => rfl
-    | cons t ts => exact absurd (h.reachable.testaments t (by rw [ht]; exact List.mem_cons_self ..)) (nocl _)
+    | cons t ts => exact absurd (h.testaments t (by rw [ht]; exact List.mem_cons_self ..)) (nocl _)
   · cases he : r.ending with
     | nil => rfl
     | cons j js => exact absurd (hct.ending j (by rw [he]; exact List.mem_cons_self ..)) (nocl _)
@@ -1193,47 +1193,36 @@ theorem C05_returns_to_empty' (cfg : Config) (r : Realm) (h : ReachableC cfg r) 
       obtain ⟨⟨c, hcm, _⟩, _⟩ := hi.inb e (by rw [hib]; exact List.mem_cons_self ..)
       rw [hc] at hcm; cases hcm
 
-/-- the same over ALL histories of the model's input type … -/
+/-- the `ending` clause over ALL histories of the model's input type (kept as a named statement: it was
+    false while `.drop k` was accepted for a key naming no attached client — the former witness
+    `C05_returns_to_empty'_full_fails`) … -/
 def C05_returns_to_empty'_full : Prop :=
   ∀ (cfg : Config) (r : Realm), Realm.Reachable cfg r → r.clients = [] → r.ending = []
 
-open Nexus.L2.WpC in
-/-- … is false, by the artefact of the model's input type already seen in `C04_meta_never_ends_full_fails`:
-    `.drop 5` in a realm that session 5 never joined leaves 5 in `ending` for ever (no transport exists
-    that could be lost; the harness never produces it).  Recommended model change: `stepOp (.drop k)` = identity
-    unless `k` is an attached client. -/
-theorem C05_returns_to_empty'_full_fails : ¬ C05_returns_to_empty'_full := by
-  intro h
-  have hs : (Realm.create {}).isSome = true := by decide +kernel
-  obtain ⟨r0, h0⟩ := Option.isSome_iff_exists.mp hs
-  obtain ⟨_, _, hc, _, _, ht, hr, _⟩ := create_rinv h0
-  obtain ⟨_, _, he⟩ := create_metaSafe h0
-  obtain ⟨d1, d2⟩ := drop_nonclient r0 5 ht hr (by rw [hc]; intro c hc'; cases hc') (by rw [he]; intro hin; cases hin)
-  have h1 := h {} _ (Realm.Reachable.step (.drop 5) (Realm.Reachable.init h0)) (by rw [d2, hc])
-  rw [d1] at h1
-  cases hh : r0.ending with
-  | nil => rw [hh] at h1; cases h1
-  | cons a b => rw [hh] at h1; cases h1
+/-- … holds: it is a clause of `C05_returns_to_empty'`. -/
+theorem C05_returns_to_empty'_full_holds : C05_returns_to_empty'_full :=
+  fun cfg r h hc => (C05_returns_to_empty' cfg r h hc).2.1
 
--- non-vacuity: the freshly created realm
-open Nexus.L2.WpC in
-example (cfg : Config) (r : Realm) (h : Realm.create cfg = some r) : ReachableC cfg r ∧ r.clients = [] :=
+-- non-vacuity: the freshly created realm; and the input of the former witness changes nothing
+example (cfg : Config) (r : Realm) (h : Realm.create cfg = some r) : Realm.Reachable cfg r ∧ r.clients = [] :=
   ⟨.init h, (create_rinv h).2.2.1⟩
+example (cfg : Config) (r : Realm) (h : Realm.create cfg = some r) : r.stepOp (.drop 5) = r :=
+  stepOp_drop_absent (by rw [(create_rinv h).2.2.1]; intro c hc; cases hc)
 
 open Nexus.L2.WpC in
 /-- "FOR ANY REASON": whoever is marked as ending leaves by the end of the step.  Every way a session's end
     is decided — lost transport, GOODBYE, protocol violation, ABORT by the broker (`handlePublish`) or the
     dealer (`syncCall`, `syncYield`), kill / kill_by_authid / kill_by_authrole / kill_all through the meta API
     (`C18_kill`: exactly the selected sessions are marked and get a `leave` task) — marks the session in
-    `ending` and queues its `leave` together (`Paired`).  So (invariant `EndPending`) in every state reachable
-    by client-level inputs each key in `ending` has its departure pending or deferred, and AT QUIESCENCE
+    `ending` and queues its `leave` together (`Paired`).  So (invariant `EndPending`) in EVERY reachable state
+    (any history of inputs) each key in `ending` has its departure pending or deferred, and AT QUIESCENCE
     (`panic = none`, hence no pending task) the only sessions still marked are attached sessions whose handler
     is in the yield retry loop, their departure being deferred until the loop ends (≤ 65.5 s, C07): everybody
     else who was told to end HAS left (and then occurs nowhere: `C05_leave_gone`). -/
-theorem C05_ending_only_busy (cfg : Config) (r : Realm) (h : ReachableC cfg r) :
+theorem C05_ending_only_busy (cfg : Config) (r : Realm) (h : Realm.Reachable cfg r) :
     (∀ k ∈ r.ending, (∃ mode, Task.leave k mode ∈ r.tasks) ∨ ∃ d ∈ r.deferred, d.1 = k) ∧
     (r.panic = none → ∀ k ∈ r.ending, r.isClient k ∧ r.busy k = true ∧ ∃ mode, (k, mode) ∈ r.deferred) :=
-  ⟨h.endPending, fun hp => ending_only_busy h.ctl h.endPending (Reachable.quiescent h.reachable hp)⟩
+  ⟨h.endPending, fun hp => ending_only_busy h.ctl h.endPending (Reachable.quiescent h hp)⟩
 
 open Nexus.L2.WpC in
 /-- … and from ANY moment inside a step (a state `q` between two atomic actions, satisfying the invariants —
@@ -1253,9 +1242,9 @@ theorem C05_end_pending_preserved (r : Realm) (hi : RealmInv r) (hc : Nexus.L2.W
     (∀ op, Nexus.L2.WpC.EndPending (r.stepOp op)) ∧
     (∀ t ts, r.tasks = t :: ts → Nexus.L2.WpC.EndPending (runTask { r with tasks := ts } t)) ∧
     (∀ t, Nexus.L2.WpC.EndPending (r.timerDue t)) ∧ (∀ x, Nexus.L2.WpC.EndPending (r.retryDue x)) ∧
-    (FuelOnly r.panic → ∀ op, Nexus.L2.WpC.OpC r op → Nexus.L2.WpC.EndPending (r.step op).2) :=
+    (FuelOnly r.panic → ∀ op, Nexus.L2.WpC.EndPending (r.step op).2) :=
   ⟨fun op => h.stepOp op, fun _ _ ht => h.runHead hc ht, fun t => h.timerDue t, fun x => h.retryDue x,
-   fun hp op hop => h.step hi hp hc op hop⟩
+   fun hp op => h.step' hi hp hc op⟩
 
 -- non-vacuity of `C05_marked_ending_gone`: session 1 of the example state has just been told to end (kill)
 open Nexus.L2.WpC in
